@@ -257,6 +257,7 @@ def program_mutations(sc, r):
     """expected mutation list per transaction of a step program: {start_ts: {key: op}} (only steps that succeeded)"""
     out = {}
     failed = {st["i"] for st in r.get("steps", []) if st.get("err") or st.get("skipped") or st.get("panic")}
+    stepres = {st["i"]: st for st in r.get("steps", [])}
     for name, tv in (r.get("txns") or {}).items():
         spec = dict(sc["txns"][name])
         ops = []
@@ -266,7 +267,10 @@ def program_mutations(sc, r):
             if st["op"] in ("set", "del", "insert"):
                 ops.append({"op": st["op"], "k": st["k"], "v": st.get("v", "")})
             elif st["op"] == "lock":
+                held = ((stepres.get(i) or {}).get("bk") or {}).get("locked")
                 for k in st.get("ks", []):
+                    if st.get("loie") and held is not None and k not in held:
+                        continue   # lock-only-if-exists on an absent key locks nothing
                     ops.append({"op": "plock" if spec.get("pessimistic") else "lockonly", "k": k})
         spec["ops"] = ops
         # in a pessimistic transaction a write without a preceding lock is prewritten without the pessimistic check;
@@ -311,13 +315,19 @@ def project(sc, r):
                 if mm is None:
                     continue
                 ml = ",".join(f"{kid(kk.encode().hex())}:{op}" for kk, op in sorted(mm.items()))
+                # the commit's primary: the one its prewrite requests name (a tentative primary of an earlier lock call may have
+                # been dropped and re-selected); without any prewrite, the first one named. A read-only commit logs no mutations.
                 prim = None
-                for e2 in r.get("trace", []):
-                    f2 = e2.get("f", {})
-                    if e2["kind"] in ("send", "crash") and f2.get("start") == f["start"] and f2.get("primary"):
-                        prim = kid(f2["primary"]); break
-                if prim is not None:
-                    lines.append(f"mutations\t{hexn(f['start'])}\t{prim}\t{ml or '-'}")
+                for want in ("Prewrite", None):
+                    for e2 in r.get("trace", []):
+                        f2 = e2.get("f", {})
+                        if e2["kind"] in ("send", "crash") and f2.get("start") == f["start"] and f2.get("primary") and (want is None or e2.get("cmd") == want):
+                            prim = kid(f2["primary"]); break
+                    if prim is not None:
+                        break
+                # (nor does one whose mutations are all CheckNotExists: nothing is locked, client-go falls back to the first key as a nominal primary)
+                if prim is not None and ml and any(op != "cne" for op in mm.values()):
+                    lines.append(f"mutations\t{hexn(f['start'])}\t{prim}\t{ml}")
         elif k == "told":
             if (f.get("finish") or "commit") == "commit":
                 res = f["res"]
